@@ -118,6 +118,9 @@ func runC05(e *core.Env) {
 		}
 		r := core.NewRand(e.Seed, 5, uint64(i))
 		today := ref.Date{Y: r.PickInt(2024, 2023, 2030), M: r.Range(1, 12), D: r.Range(2, 28)}
+		if r.Chance(1, 10) {
+			today = obs.DSTDates[r.Intn(len(obs.DSTDates))]
+		}
 		d := gen.Document(r, gen.Opts{MaxRecs: 6, MinRecs: 1, MaxEntries: 4, Near: &today, NearSpread: r.PickInt(1, 1, 2, 4), Sorted: r.Chance(2, 3), NoDupDates: r.Chance(1, 2), Hostile: true, OpenRanges: 1,
 			Tags: 1, Unicode: r.Chance(1, 3), LookAlikes: r.Chance(1, 2), TrailingBlank: r.Chance(1, 2), MaxHours: 12})
 		env := genEnv(r, today)
